@@ -77,8 +77,10 @@ impl KeyPool {
                         der.as_ref().to_vec()
                     };
                     let tmp = format!("{path}.{}", std::process::id());
+                    // never replace a key another process has put there meanwhile: link, do not rename
                     std::fs::write(&tmp, &b).unwrap();
-                    let _ = std::fs::rename(&tmp, &path);
+                    let _ = std::fs::hard_link(&tmp, &path);
+                    let _ = std::fs::remove_file(&tmp);
                     std::fs::read(&path).unwrap()
                 }
             };
